@@ -18,7 +18,10 @@ const (
 	preambleLen  = 36
 )
 
-var errMalformed = errors.New("malformed rtpdump")
+var (
+	errMalformed = errors.New("malformed rtpdump")
+	errNotIPv4   = errors.New("rtpdump source address must be IPv4")
+)
 
 // Header is the binary header at the top of the RTPDump file. It contains
 // information about the source and start time of the packet stream included
